@@ -105,6 +105,16 @@ CHECKS = {
         "repaired D2 (mask on Z/d) and D3 (rectangular transform rejected).",
         "DESIGN.md 6/C14",
     ),
+    "C10": (
+        "exhaustive enumeration (l = 0..10; all conventions for l <= 2) plus Hypothesis-drawn conventions, evaluation "
+        "points and a single-edit mutation grammar for invalid conventions; oracle = harmonicity / orthonormality / "
+        "phase predicates and an independent recurrence construction",
+        "All 121 functions l <= 10 checked in every run as explicit polynomials (harmonic, orthonormal, cos/sin "
+        "partnership with positive factor at the pole, documented order, equal to the recurrence oracle); every Cartesian "
+        "order and label order x sign pattern for l <= 2 enumerated, l = 3..6 drawn; 19 kinds of invalid convention must raise.",
+        "Trusts the closed-form same-shell overlap and vf/ref R4. Found and repaired D10 (embedded '-' accepted).",
+        "DESIGN.md 6/C10",
+    ),
 }
 
 NOT_YET = "check not built yet in this revision (planned, see DESIGN.md section 6)"
